@@ -38,11 +38,22 @@ def since (now t : Int) : Int :=
 /-- `int(d.Seconds())`: whole seconds, truncated toward zero. -/
 def wholeSeconds (d : Int) : Int := Int.tdiv d nsPerSec
 
+/-- The untimed part of the Go struct `strictTransport` (`StrictTransport`, Girc/Base/GoSem.lean: all six fields, clock
+    readings as integers) — what the generated `Fn.strictTransport_*` functions (Gen/Funcs.lean) work on. -/
+def stsOf (s : StrictTransport) : Sts :=
+  { beginUpgrade := s.beginUpgrade, upgradePort := s.upgradePort, persistenceDuration := s.persistenceDuration,
+    preload := s.preload }
+
 /-- The stored policy with its clock readings. `lastFailed = none` is the zero `time.Time`. -/
 structure TSts extends Sts where
   received : Int                      -- persistenceReceived
   lastFailed : Option Int := none     -- lastFailed
   deriving DecidableEq, Repr
+
+/-- The timed model's view of the Go struct.  `lastFailed` is a parameter: `none` stands for Go's zero `time.Time`, which
+    has no integer reading on the model's clock. -/
+def tstsOf (s : StrictTransport) (lastFailed : Option Int) : TSts :=
+  { toSts := stsOf s, received := s.persistenceReceived, lastFailed := lastFailed }
 
 /-- `strictTransport.expired()` evaluated when the clock reads `now`. -/
 def expiredAt (now : Int) (s : TSts) : Bool :=
